@@ -723,20 +723,11 @@ def check_stitch(ctx, case):
 
     def wire_samples(samples):
         return [[q(s[0]), [wire_opv(None if v is None else (Fr(v[0]), Fr(v[1]))) for v in s[1]]] for s in samples]
-    # model: per part, merge the substreams; then stitch the parts
+    # model: per part every substream's samples (or absent); the rule "a substream lacking the part makes the part
+    # absent", the merge of the substreams and the stitching are all in the model (stitch_substreams)
     if nparts:
-        merged = []
-        for pn in range(nparts):
-            streams = [wire_samples(sub[str(pn)]) for sub in subs if str(pn) in sub]
-            if len([1 for sub in subs]) == 1:
-                merged.append(streams[0] if streams else [])
-            else:
-                if len(streams) != len(subs):
-                    merged.append(None)          # a substream lacks this part: KeyError -> the whole part is absent
-                else:
-                    merged.append(ctx.model([[14, [7, streams]]])[0])
-        merged = [m if m is not None else [] for m in merged]
-        mo = ctx.model([[14, [6, merged]]])[0]
+        parts = [[[wire_samples(sub[str(pn)])] if str(pn) in sub else [] for sub in subs] for pn in range(nparts)]
+        mo = ctx.model([[14, [61, parts]]])[0]
         mo = None if not mo else mo[0]
     else:
         streams = [wire_samples(sub['0']) for sub in subs]
